@@ -31,13 +31,19 @@ RULE = ('phase diagrams: product of (number of reactions 1-8, rotation of the re
         'ideal-gas species: product of (profile, gas pattern, condition set); non-trivial when a pressure other than '
         'the default is requested. Species naming schemes x every per-species scan variable, and states with two '
         'pressure-dependent species in either order x per-species condition sets: full products over reduced profile / '
-        'size sets')
+        'size sets. Fourth round: (scan variable x pair of reactions x index order x units) with the grid placed on '
+        'both sides of the located crossing; (pair of scan variables x number of reactions x call history) with every '
+        'result kept; all profiles with transition-state energies of their own on the stated lattices')
 ASSUMPTIONS = ['species are real StatMech objects from a fixed table (energies on a lattice chosen so that lines cross)',
                'ties (equal normalised energies / equal extremal state energies) accept any of the tied answers',
                'the index type of the reported stable phase (int / integral float) is not part of the property',
                'T is always supplied when energy units are requested',
                'a whole-number grid value / condition / factor (Python int, int64) denotes the same real number as the float',
-               'the pressure dependence of an ideal-gas species is kB T ln(P / 1 bar) on top of its own 1 bar Gibbs energy']
+               'the pressure dependence of an ideal-gas species is kB T ln(P / 1 bar) on top of its own 1 bar Gibbs energy',
+               'next to a phase boundary the lower phase is decided on the reactions own double-precision values: two phases '
+               'tie only when their tabulated values are equal (oracle side: when they differ by less than 1e-13 relative)',
+               'a transition state is a state of the sequence with the Gibbs energy its species have, wherever it lies '
+               'relative to its end states']
 EXPLANATION = ('exhaustive product enumeration on the real PhaseDiagram / Reactions / Network classes; oracle from '
                'the reactions own values at freshly built conditions and from the profile written by the harness')
 
@@ -60,6 +66,9 @@ LAT3 = [-1.0, 0.0, 1.0]
 N_PD_SHARDS = 16
 N_SPAN_SHARDS = 8
 N_SPANC_SHARDS = 16
+N_PDX_SHARDS = 5
+N_KEEP_SHARDS = 2
+N_SPANT_SHARDS = 2
 
 # ---- containers / number types of the grids, factors and fixed conditions (strengthening after seeded changes)
 NORMS_INT = [1, 2, 3, 4]
@@ -130,7 +139,19 @@ PLANNED_TAGS = ['pd:1D', 'pd:2D', 'pd:argmin-changes-along-grid', 'pd:argmin-con
                 'spanc:two-gases-in-one-state', 'spanc:earlier-species-own-P,later-overall',
                 'spanc:later-species-own-P,earlier-overall', 'spanc:both-species-own-P',
                 'spanc:cond-P-+-surface-species-P', 'spanc:Network.min', 'spanc:names-us', 'spanc:names-pre',
-                'spanc:names-paren', 'spanc:names-prefix', 'spanc:names-suffix']
+                'spanc:names-paren', 'spanc:names-prefix', 'spanc:names-suffix',
+                # fourth round: grid points next to a phase boundary (both index orders), results the caller keeps
+                # across later calls, transition states with energies of their own
+                'pdx:1D', 'pdx:2D', 'pdx:scan-T', 'pdx:scan-P', 'pdx:scan-O2_kwargs', 'pdx:scan-H2O_kwargs',
+                'pdx:scan-H2_kwargs', 'pdx:order-0', 'pdx:order-1', 'pdx:order-2', 'pdx:order-3', 'pdx:units',
+                'pdx:dimensionless', 'pdx:gap<1e-6,lower-phase-has-higher-index',
+                'pdx:gap<1e-6,lower-phase-has-lower-index', 'pdx:gap<1e-9', 'pdx:crossing-on-the-envelope-of-eight',
+                'keep:units-then-conditions-2D', 'keep:units-then-conditions-1D', 'keep:mixed-dimensions',
+                'keep:two-diagrams', 'keep:1D', 'keep:2D', 'keep:looked-at-after-a-later-call',
+                'span:ts-below-both-ends', 'span:ts-between-its-ends', 'span:ts-level-with-an-end',
+                'span:ts-above-both-ends', 'span:ts-is-the-lowest-state',
+                'span:ts-is-the-lowest-state,before-the-highest', 'span:ts-is-the-lowest-state,after-the-highest',
+                'spanc:ts-is-the-lowest-state', 'spank:two-sequences-same-names']
 
 
 def bounds(tier):
@@ -157,6 +178,23 @@ def bounds(tier):
                 span_two_gases=dict(patterns=TWO_GAS_PATTERNS, conditions=(TWO_GAS_CONDS if tier == 'quick' else 'all (3 steps: %r)' % TWO_GAS_CONDS),
                                     gas_names=GAS_NAMES, named_patterns=NAMED_PATTERNS, named_conditions=NAMED_CONDS,
                                     routes=['Reactions.get_E_span', 'Network.get_E_span', 'Network.get_min_E_span']),
+                near_phase_boundary=dict(scans=X_SCANS, pairs='all 28 pairs of the 8 reactions', search_range=X_RANGE,
+                                         relative_distances=NEAR[tier], orders=['pair', 'pair reversed', 'full list of 8',
+                                                                               'full list reversed'],
+                                         calls=['get_GoRT_1D', 'get_GoRT_2D boundary variable first / second'],
+                                         units=(UNITS if tier == 'thorough' else
+                                                'None, eV for the pairs; None for the full lists')),
+                kept_results=dict(sequences=KEEP_SEQS, pairs=PAIRS + [pr for pr in PAIRS_NAMES if pr not in PAIRS],
+                                  n=([1, 3, 8] if tier == 'quick' else '1-8'),
+                                  sizes=('(2,5) / (5,2) alternating' if tier == 'quick' else '(2,5), (5,2), (5,5), (1,1)'),
+                                  spans='1-2 steps, 11 calls over two sequences with the same species names, 3 routes'),
+                span_free_ts=dict(one_step='states on {-2..2} x TS on {-2.5, -2, ..., 2.5} (+ spectator)',
+                                  two_steps=('states on {-1,0,1}, TS absent or on {-1.5,-1,...,1.5}' if tier == 'quick'
+                                             else 'states on {-2..2}, TS absent or on {-2.5,-2,...,2.5}'),
+                                  three_steps=('first state 0, TS absent / -1.5 / 0.5' if tier == 'quick'
+                                               else 'states on {-1,0,1}, TS absent or on {-1.5,-0.5,0.5,1.5}'),
+                                  unchained='two steps, states on {-1,0,1}',
+                                  with_gases=dict(patterns=TSG_PATTERNS, conditions=TSG_CONDS)),
                 span_conditions=dict(gas_patterns=GAS_PATTERNS + MID_PATTERNS, conditions=SPAN_CONDS, T=[300, 650.0],
                                      profiles=('1-2 steps on {-1,0,1} all TS codes, 3 steps first state 0 with 3 TS codes'
                                                if tier == 'quick' else
@@ -428,7 +466,7 @@ def _norm_snapshot(pd):
     return (type(nf).__name__, str(getattr(nf, 'dtype', '')), [float(v) for v in nf])
 
 
-def _check_1d(pd, rxns, norms, name, grid, base, units, ctx, sig, case, tag=True):
+def _check_1d(pd, rxns, norms, name, grid, base, units, ctx, sig, case, tag=True, out=None):
     """All 1-D clauses; returns (table, stable) or None.  `grid` is the caller's own container and is handed over
     as it is; the oracle works on a copy taken before the call."""
     elems = [_oelem(g) for g in grid]
@@ -445,6 +483,8 @@ def _check_1d(pd, rxns, norms, name, grid, base, units, ctx, sig, case, tag=True
     G, st = np.asarray(G), np.asarray(st)
     exp = np.array([_expected(rxns, norms, _cond(base, **{name: g}), units) for g in elems]).T.reshape(n, nx)
     ctx.evals(n * nx)
+    if out is not None:
+        out['exp'] = exp            # the oracle table, for callers that add clauses of their own
     ok = ctx.true('1-D table has shape (n_reactions, n_x)', G.shape == (n, nx), sig, case, list(G.shape), [n, nx])
     if not ok:
         return None
@@ -822,6 +862,270 @@ def _pd2_cases(tier):
                             yield case
 
 
+# =================================================================== grid points next to a phase boundary (fourth round)
+# For every pair of formation reactions and every scan variable the crossing x* of the two normalised lines is
+# located on the reactions' own values (bracketed secant search; nothing is assumed about the shape of the lines), and
+# the scan is run on the grid x* (1 -+ d), d = 1e-3 ... 1e-9, in both index orders of the pair and inside the full
+# list of eight reactions.  There two phases differ by far less than any "close enough" tolerance, yet one of them
+# is strictly lower: it is the stable one.  Ties are accepted only between EQUAL tabulated values.
+NEAR = {'quick': [1e-3, 1e-6, 1e-9], 'thorough': [1e-3, 1e-4, 1e-5, 1e-6, 1e-7, 1e-8, 1e-9]}
+X_SCANS = ['T', 'P', 'O2_kwargs', 'H2O_kwargs', 'H2_kwargs']
+X_RANGE = {'T': (250.0, 1700.0), 'P': (1e-30, 1e3)}
+NORM_OF = {t: NORMS[i % 4] for i, t in enumerate(RXN_ORDER)}
+STRICT_TAB = ('reported stable phase has the lowest tabulated energy of its grid point (phases tie only when their '
+              'tabulated energies are equal)')
+STRICT_ORA = 'next to a phase boundary the reported stable phase is the strictly lower one'
+
+
+def _pdx_cases(tier):
+    full = tier == 'thorough'
+    for scan in X_SCANS:
+        for p, q in itertools.combinations(RXN_ORDER, 2):
+            for order in (0, 1, 2, 3):
+                for units in (UNITS if full else (None, 'eV')):
+                    if not full and order >= 2 and units:
+                        continue        # quick: the full list in both orders without units
+                    case = dict(kind='pdx', scan=scan, pair=[p, q], order=order, units=units)
+                    if full:
+                        case['dense'] = True        # every decade of distance (carried by the case)
+                    yield case
+
+
+def _pdx_sig(case, dim=None):
+    s = dict(part='phase-diagram', family='next to a phase boundary', scan=case['scan'],
+             units='energy' if case['units'] else 'none',
+             order={0: 'pair', 1: 'pair reversed', 2: 'full list', 3: 'full list reversed'}[case['order']])
+    if dim:
+        s['dim'] = dim
+    return s
+
+
+def _crossing(f, lo, hi, log):
+    """Root of f between lo and hi (bracketed secant / Illinois on x or ln x); None when f does not change sign."""
+    to_u = math.log if log else float
+    to_x = math.exp if log else float
+    a, b = to_u(lo), to_u(hi)
+    fa, fb = f(lo), f(hi)
+    if fa == 0.0 or fb == 0.0 or (fa > 0) == (fb > 0):
+        return None
+    last = None
+    for _ in range(60):
+        u = b - fb * (b - a) / (fb - fa)
+        if not (min(a, b) < u < max(a, b)):
+            u = 0.5 * (a + b)
+        fu = f(to_x(u))
+        if fu == 0.0 or (last is not None and abs(u - last) <= 1e-12 * max(1.0, abs(u))):
+            return to_x(u)
+        last = u
+        if (fu > 0) == (fb > 0):
+            b, fb, fa = u, fu, fa * 0.5
+        else:
+            a, fa, fb = u, fu, fb * 0.5
+    return to_x(u)
+
+
+def _strict_cols(ctx, st, G, exp, order_tags, sig, case, count=True):
+    """The two strict clauses on a list of columns: st[j] reported, G[:, j] tabulated, exp[:, j] oracle."""
+    nx = exp.shape[1]
+    tab_ok, ora_ok, want = [], [], []
+    for j in range(nx):
+        try:
+            k = int(st[j])
+            valid = k == st[j] and 0 <= k < exp.shape[0]
+        except (TypeError, ValueError):
+            valid = False
+        col, ecol = G[:, j], exp[:, j]
+        tab_ok.append(bool(valid and col[k] == np.min(col)))
+        srt = np.sort(ecol)
+        decided = len(srt) == 1 or (srt[1] - srt[0]) > 1e-13 * (np.max(np.abs(ecol)) + 1.0)
+        am = int(np.argmin(ecol))
+        want.append(am)
+        ora_ok.append(bool(valid and (k == am or not decided)))
+        if count and decided and len(srt) > 1:
+            rel = (srt[1] - srt[0]) / (abs(srt[0]) + 1e-300)
+            second = int(np.argsort(ecol)[1])
+            if rel < 1e-6:
+                ctx.tag('pdx:gap<1e-6,lower-phase-has-' + ('higher' if am > second else 'lower') + '-index')
+            if rel < 1e-9:
+                ctx.tag('pdx:gap<1e-9')
+            ctx.nontrivial(('pdx', case['scan'], tuple(case['pair']), case['order'], j))
+    shown = [int(v) if float(v).is_integer() else float(v) for v in np.asarray(st, dtype=float).tolist()]
+    ctx.true(STRICT_TAB, all(tab_ok), sig, case, shown, [int(np.argmin(G[:, j])) for j in range(nx)])
+    ctx.true(STRICT_ORA, all(ora_ok), sig, case, shown, want)
+
+
+def _run_pdx(case, ctx):
+    from pmutt.reaction.phasediagram import PhaseDiagram
+    scan, units, order = case['scan'], case['units'], case['order']
+    sp = _species(None)
+    p, q = case['pair']
+    rp, rq = _reaction(p, sp), _reaction(q, sp)
+    base = _base([scan], 'a')
+    numeric = scan in ('T', 'P')
+
+    def elem(x):
+        return float(x) if numeric else {'P': float(x)}
+
+    def diff(x):
+        ctx.evals(2)
+        kw = _cond(base, **{scan: elem(x)})
+        return rp.get_delta_GoRT(**_cond(kw)) / NORM_OF[p] - rq.get_delta_GoRT(**_cond(kw)) / NORM_OF[q]
+
+    lo, hi = X_RANGE['T' if scan == 'T' else 'P']
+    xs = _crossing(diff, lo, hi, log=scan != 'T')
+    ctx.tag('pdx:scan-' + scan)
+    if xs is None:
+        ctx.tag('pdx:no-crossing-in-range')
+        return
+    tags = [p, q] if order == 0 else [q, p] if order == 1 else list(RXN_ORDER) if order == 2 else RXN_ORDER[::-1]
+    if order >= 2:
+        # inside the full list only the crossings on the lower envelope decide a stable phase
+        kw = _cond(base, **{scan: elem(xs)})
+        vals = {t: _reaction(t, sp).get_delta_GoRT(**_cond(kw)) / NORM_OF[t] for t in RXN_ORDER}
+        ctx.evals(8)
+        low = min(vals.values())
+        if min(vals[p], vals[q]) > low + 1e-6 * (abs(low) + 1.0):
+            ctx.tag('pdx:crossing-above-the-envelope')
+            return
+        ctx.tag('pdx:crossing-on-the-envelope-of-eight')
+    ctx.tag('pdx:order-%d' % order)
+    ctx.tag('pdx:units' if units else 'pdx:dimensionless')
+    rxns = [rp if t == p else rq if t == q else _reaction(t, sp) for t in tags]
+    norms = [NORM_OF[t] for t in tags]
+    pd = PhaseDiagram(reactions=rxns, norm_factors=np.array(norms))
+    near = NEAR['thorough' if case.get('dense') else 'quick']
+    vals = sorted(set([xs * (1.0 - d) for d in near] + [xs] + [xs * (1.0 + d) for d in near]))
+    grid = [elem(x) for x in vals]
+    n, nx = len(rxns), len(grid)
+    ctx.trans(3 * n * nx)
+    # one-parameter scan: all the general clauses, then the strict ones
+    s1 = _pdx_sig(case, 1)
+    out = {}
+    r = _check_1d(pd, rxns, norms, scan, grid, base, units, ctx, s1, case, tag=False, out=out)
+    exp = out['exp']
+    ctx.tag('pdx:1D')
+    if r is not None:
+        _strict_cols(ctx, r[1], r[0], exp, tags, s1, case)
+    # two-parameter scans with the boundary variable first / second and a single value of the other variable
+    other = 'P' if scan != 'P' else 'T'
+    b2 = {k: v for k, v in base.items() if k != other}
+    oval = [base[other]]
+    for first in (True, False):
+        s2 = _pdx_sig(case, '2, boundary variable ' + ('first' if first else 'second'))
+        kw = _cond(b2)
+        if first:
+            G, st = pd.get_GoRT_2D(x1_name=scan, x1_values=grid, x2_name=other, x2_values=oval, G_units=units, **kw)
+        else:
+            G, st = pd.get_GoRT_2D(x1_name=other, x1_values=oval, x2_name=scan, x2_values=grid, G_units=units, **kw)
+        ctx.trace()
+        ctx.evals(n * nx)
+        ctx.tag('pdx:2D')
+        G, st = np.asarray(G), np.asarray(st)
+        shape = (n, nx, 1) if first else (n, 1, nx)
+        if not ctx.true('2-D table has shape (n_reactions, n_x1, n_x2)', G.shape == shape and st.shape == shape[1:],
+                        s2, case, [list(G.shape), list(st.shape)], [list(shape), list(shape[1:])]):
+            continue
+        G2, st2 = G.reshape(n, nx), st.reshape(nx)
+        ctx.close('tabulated energy = reaction value / normalisation factor (x RT with units)', G2, exp, s2, case,
+                  rtol=1e-10, scale=np.abs(exp) + 1.0)
+        _strict_cols(ctx, st2, G2, exp, tags, s2, case, count=False)
+        if r is not None:
+            ctx.true('next to a phase boundary the 1-D and the 2-D scan report the same stable phases',
+                     [float(v) for v in r[1]] == [float(v) for v in st2], s2, case,
+                     [float(v) for v in r[1]], [float(v) for v in st2])
+
+
+# =================================================================== results the caller keeps (fourth round)
+# The caller keeps what a call returned (table and stable phases), calls again - other units, other fixed conditions,
+# the other scan dimension, a second diagram - and looks at the kept result afterwards: it must still be the answer
+# for ITS call, and no two results may live in the same memory.
+KEEP_SEQS = {
+    'units-then-conditions-2D': [['2', None, 'a', 0], ['2', 'kJ/mol', 'a', 0], ['2', None, 'b', 0]],
+    'units-then-conditions-1D': [['1a', 'eV', 'a', 0], ['1a', None, 'a', 0], ['1a', 'eV', 'b', 0], ['1b', None, 'a', 0],
+                                 ['1b', None, 's', 0]],
+    'mixed-dimensions': [['2', None, 'a', 0], ['1b', 'eV', 'a', 0], ['2', 'eV', 's', 0], ['1a', None, 's', 0],
+                         ['2', 'eV', 'a', 0]],
+    'two-diagrams': [['2', 'eV', 'a', 0], ['2', 'eV', 'a', 1], ['1a', None, 'b', 0], ['1a', None, 'b', 1],
+                     ['2', None, 'b', 0]]}
+KEPT_TAB = 'a table handed out by an earlier call still holds the energies of its own call after later calls'
+KEPT_ST = 'stable phases handed out by an earlier call are still those of its own call after later calls'
+KEPT_SEP = 'results of different calls do not share memory'
+
+
+def _keep_cases(tier):
+    full = tier == 'thorough'
+    pairs = PAIRS + [pr for pr in PAIRS_NAMES if pr not in PAIRS]
+    for n in ((1, 3, 8) if not full else range(1, 9)):
+        for i, pair in enumerate(pairs):
+            for j, seq in enumerate(sorted(KEEP_SEQS)):
+                for sizes in ((2, 5), (5, 2), (5, 5), (1, 1)):
+                    if not full and sizes != ((2, 5), (5, 2))[(i + j) % 2]:
+                        continue
+                    yield dict(kind='keep', n=n, rot=0, off=0, pair=list(pair), sizes=list(sizes), seq=seq)
+
+
+def _keep_sig(case, call=None):
+    s = dict(part='phase-diagram', family='kept results', scan='%s,%s' % tuple(case['pair']), history=case['seq'])
+    if call is not None:
+        s['call'] = call
+    return s
+
+
+def _run_keep(case, ctx):
+    pdA, rxA, nA = _diagram(case)
+    pdB, rxB, nB = _twin(pdA, case, 'new')
+    ta, tb = case['pair']
+    na, nb = case['sizes']
+    ga, gb = _grid(ta, na), _grid(tb, nb)
+    n = case['n']
+    kept = []
+    ctx.tag('keep:' + case['seq'])
+    for ci, (dim, units, bvar, who) in enumerate(KEEP_SEQS[case['seq']]):
+        pd, rxns, norms = ((pdA, rxA, nA), (pdB, rxB, nB))[who]
+        base = _base([ta, tb], bvar)
+        sig = _keep_sig(case, 'dim %s, %s, conditions %s, diagram %d' % (dim[0], 'units' if units else 'no units', bvar, who))
+        if dim == '2':
+            kw = _cond(base)
+            G, st = pd.get_GoRT_2D(x1_name=ta, x1_values=ga, x2_name=tb, x2_values=gb, G_units=units, **kw)
+            ctx.trace()
+            exp = np.zeros((n, na, nb))
+            for j, xa in enumerate(ga):
+                for k, xb in enumerate(gb):
+                    exp[:, j, k] = _expected(rxns, norms, _cond(base, **{ta: xa, tb: xb}), units)
+            ctx.evals(2 * n * na * nb)
+            ctx.trans(n * na * nb)
+        else:
+            name, grid, fixed = (ta, ga, {tb: gb[0]}) if dim == '1a' else (tb, gb, {ta: ga[-1]})
+            kw = _cond(base, **fixed)
+            G, st = pd.get_GoRT_1D(x_name=name, x_values=grid, G_units=units, **kw)
+            ctx.trace()
+            exp = np.array([_expected(rxns, norms, _cond(base, **dict(fixed, **{name: g})), units) for g in grid]).T
+            exp = exp.reshape(n, len(grid))
+            ctx.evals(2 * n * len(grid))
+            ctx.trans(n * len(grid))
+        ctx.tag('keep:1D' if dim != '2' else 'keep:2D')
+        kept.append((G, st, exp, sig))
+        # every result handed out so far is looked at again after this call (the newest one included)
+        for G_, st_, exp_, sig_ in kept:
+            s_ = sig_ if sig_ is sig else dict(sig_, after=sig['call'])
+            if G_ is not G:
+                ctx.tag('keep:looked-at-after-a-later-call')
+            G_a, st_a = np.asarray(G_), np.asarray(st_)
+            if not ctx.true('table and stable phases have the shape of their own call',
+                            G_a.shape == exp_.shape and st_a.shape == exp_.shape[1:], s_, case,
+                            [list(G_a.shape), list(st_a.shape)], [list(exp_.shape), list(exp_.shape[1:])]):
+                continue
+            ctx.close(KEPT_TAB, G_a, exp_, s_, case, rtol=1e-10, scale=np.abs(exp_) + 1.0)
+            tol = 1e-9 * (np.max(np.abs(exp_)) + 1.0)
+            e2, s2 = exp_.reshape(n, -1), st_a.reshape(-1)
+            ctx.true(KEPT_ST, all(_argmin_ok(s2[j], e2[:, j], tol) for j in range(e2.shape[1])), s_, case,
+                     s2.tolist(), np.argmin(e2, axis=0).tolist())
+    arrays = [np.asarray(x) for G_, st_, _, _ in kept for x in (G_, st_)]
+    shared = [(i, j) for i in range(len(arrays)) for j in range(i + 1, len(arrays))
+              if np.shares_memory(arrays[i], arrays[j])]
+    ctx.true(KEPT_SEP, not shared, _keep_sig(case), case, shared, [])
+
+
 # =================================================================== energy spans
 def _ts_codes(k):
     return itertools.product((0, 1), repeat=k)
@@ -872,22 +1176,80 @@ def _span_cases(tier):
                         yield dict(kind='span', g=g, ts=t, spect=False)
 
 
+LAT_TS = [-1.5, -0.5, 0.5, 1.5]         # never level with a state on {-1, 0, 1}: below, between and above the ends
+LAT_TS5 = [-2.5, -1.5, -0.5, 0.5, 1.5, 2.5]
+
+
+def _spant_cases(tier):
+    """Fourth round: transition states with energies of their own anywhere on the lattice - below both end states
+    (the lowest state of the whole sequence included), between them, level with one of them and above both."""
+    full = tier == 'thorough'
+
+    def case(g, tsg, **kw):
+        c_ = dict(kind='span', g=list(g), ts=[0 if v is None else 1 for v in tsg], spect=False, tsg=list(tsg))
+        if not full:
+            c_['light'] = True
+        c_.update(kw)
+        return c_
+
+    # one step: every state pair of the five-value lattice x every TS energy on the half lattice and on the lattice
+    for g in itertools.product(LAT, repeat=2):
+        for e in LAT_TS5 + LAT:
+            yield case(g, [e])
+            if full or e in LAT_TS5:
+                yield case(g, [e], spect=True)
+    # two steps
+    opts = [None] + (LAT_TS5 + LAT if full else LAT_TS + LAT3)
+    for g in itertools.product(LAT if full else LAT3, repeat=3):
+        for tsg in itertools.product(opts, repeat=2):
+            if any(v is not None for v in tsg):
+                yield case(g, tsg)
+    # three steps (quick: first state 0, TS absent / below everything / between)
+    opts = [None] + (LAT_TS if full else [-1.5, 0.5])
+    for g in itertools.product(LAT3, repeat=4):
+        if not full and g[0] != 0.0:
+            continue
+        for tsg in itertools.product(opts, repeat=3):
+            if any(v is not None for v in tsg):
+                yield case(g, tsg)
+    # steps that do not share states
+    opts = [None] + (LAT_TS if full else [-1.5, 0.5])
+    for rp in itertools.product(LAT3, repeat=4):
+        for tsg in itertools.product(opts, repeat=2):
+            if any(v is not None for v in tsg):
+                yield case(rp, tsg, chain=False)
+    if full:
+        # 4-6 steps: one or two free transition states in otherwise flat / zig-zag profiles
+        for k in (4, 5, 6):
+            for g0 in ([0.0] * (k + 1), [float(i % 2) for i in range(k + 1)]):
+                for p, q in itertools.combinations(range(k), 2):
+                    for vp, vq in itertools.product(LAT_TS, repeat=2):
+                        tsg = [None] * k
+                        tsg[p], tsg[q] = vp, vq
+                        yield case(g0, tsg)
+
+
 def _profile(case):
     """The profile as the harness defines it: ordered (name, energy, is_ts) of the physical states."""
     g, ts = case['g'], case['ts']
+    tsg = case.get('tsg')       # fourth round: transition-state energies of their own (anywhere on the lattice)
+
+    def e_ts(i, r, p):
+        return float(tsg[i]) if (tsg and tsg[i] is not None) else max(r, p) + 1.0
+
     if case.get('chain') is False:
         out = []
         for i in range(len(ts)):
             r, p = g[2 * i], g[2 * i + 1]
             out.append(('R%d' % i, r, False))
             if ts[i]:
-                out.append(('TS%d' % i, max(r, p) + 1.0, True))
+                out.append(('TS%d' % i, e_ts(i, r, p), True))
             out.append(('P%d' % i, p, False))
         return out
     out = [('S0', g[0], False)]
     for i in range(len(ts)):
         if ts[i]:
-            out.append(('TS%d' % i, max(g[i], g[i + 1]) + 1.0, True))
+            out.append(('TS%d' % i, e_ts(i, g[i], g[i + 1]), True))
         out.append(('S%d' % (i + 1), g[i + 1], False))
     return out
 
@@ -911,6 +1273,8 @@ def _span_sig(case, api=None, units=None):
     s = dict(part='e-span', branch=branch)
     if case.get('chain') is False:
         s['steps'] = 'unchained'
+    if case.get('tsg'):
+        s['ts'] = 'free energy'
     if api:
         s['api'] = api
         s['units'] = units or 'none'
@@ -955,7 +1319,22 @@ def _run_span(case, ctx):
         ctx.tag('span:spectator')
     if k == 1:
         ctx.tag('span:single-step')
+    if case.get('tsg'):
+        # fourth round: where the transition states lie relative to their end states and to the whole sequence
+        states = [p_ for p_ in prof if not p_[2]]
+        for j, p_ in enumerate(prof):
+            if not p_[2]:
+                continue
+            lo, hi = sorted((prof[j - 1][1], prof[j + 1][1]))
+            ctx.tag('span:ts-below-both-ends' if p_[1] < lo else 'span:ts-above-both-ends' if p_[1] > hi else
+                    'span:ts-level-with-an-end' if p_[1] in (lo, hi) else 'span:ts-between-its-ends')
+            if p_[1] < min(s_[1] for s_ in states):
+                ctx.tag('span:ts-is-the-lowest-state')
+                ctx.tag('span:ts-is-the-lowest-state,' + ('before' if j < imax[0] else 'after') + '-the-highest')
     T = 300.0 if (int(sum(case['g'])) % 2 == 0) else 650.0
+    # light (carried by the case): one unit per route, alternating with the profile
+    light = bool(case.get('light'))
+    par = int(sum(abs(v) for v in case['g']) + sum(case['ts'])) % 2
 
     def nearest(obs, factor):
         cs = [v * factor for v in cands]
@@ -967,7 +1346,7 @@ def _run_span(case, ctx):
     clause = 'energy span = highest - lowest state G (+ overall reaction G when the highest precedes the lowest)'
     # Reactions.get_E_span
     ctx.tag('span:Reactions')
-    for units in ('eV', 'kJ/mol'):
+    for units in ((('eV', 'kJ/mol')[par],) if light else ('eV', 'kJ/mol')):
         obs = Reactions(reactions=rxns).get_E_span(units=units, T=T)
         ctx.trace()
         ctx.evals()
@@ -980,7 +1359,7 @@ def _run_span(case, ctx):
     ctx.tag('span:Network')
     net = Network(reactions=rxns)
     path = [frozenset([(name, 1), ('X', 2)]) if spect else frozenset([(name, 1)]) for name, _, _ in prof]
-    for units in ('eV', None):
+    for units in (((None, 'eV')[par],) if light else ('eV', None)):
         obs = net.get_E_span(path=path, units=units, T=T)
         ctx.trace()
         ctx.evals()
@@ -1016,6 +1395,8 @@ GAS_NAMES = {'us': dict(A='A_g', B='B_g'), 'pre': dict(A='gas_A', B='gas_B'), 'p
              'prefix': dict(A='CO', B='CO2'), 'suffix': dict(A='CO2', B='O2')}
 NAMED_PATTERNS = ['A|B', 'B+2A|-', 'A|-;*B']
 NAMED_CONDS = [4, 5, 6]
+TSG_PATTERNS = ['A|B', 'A|-;*B']
+TSG_CONDS = [2, 5]
 _GAS_DEF = {'A': dict(E=0.4, wn=[2121.2], rt=[2.78], geom='linear', sig=1, mw=28.01, el={'C': 1, 'O': 1}),
             'B': dict(E=0.3, wn=[667.0, 667.0, 1333.0, 2349.0], rt=[0.561], geom='linear', sig=2, mw=44.01,
                       el={'C': 1, 'O': 2})}
@@ -1073,7 +1454,9 @@ def _spanc_steps(case):
     for i in range(k):
         r = ('S%d' % i, g[i], pre + gin[i] + post)
         p = ('S%d' % (i + 1), g[i + 1], pre + gout[i] + post)
-        t = ('TS%d' % i, max(g[i], g[i + 1]) + 1.0, pre + post) if ts[i] else None
+        tsg = case.get('tsg')
+        e_ts = float(tsg[i]) if (tsg and tsg[i] is not None) else max(g[i], g[i + 1]) + 1.0
+        t = ('TS%d' % i, e_ts, pre + post) if ts[i] else None
         steps.append((r, t, p))
     return steps
 
@@ -1103,7 +1486,7 @@ def _spanc_cases(tier):
     in the quick tier) and 'minroute' (get_min_E_span as a third route: the third-round families, the surface-species
     conditions, and the first temperature of every older pattern in the thorough tier)."""
     for case in _spanc_cases_plain(tier):
-        new = case['gas'] in TWO_GAS_PATTERNS or bool(case.get('names'))
+        new = case['gas'] in TWO_GAS_PATTERNS or bool(case.get('names')) or bool(case.get('tsg'))
         if tier == 'quick' and new:
             case['light'] = True
         if new or case['cond'] == 8 or case.get('Ti') == 0:
@@ -1160,6 +1543,15 @@ def _spanc_cases_plain(tier):
             for pat in NAMED_PATTERNS:
                 for ci in NAMED_CONDS:
                     yield dict(kind='spanc', g=g, ts=ts, gas=pat, cond=ci, names=scheme)
+    # fourth round: transition states with energies of their own (below everything / between the end states) in
+    # sequences with gas species, through all three routes
+    for g, ts in profiles():
+        if len(ts) > 2 or not any(ts):
+            continue
+        for e in ((-1.5, 0.5) if tier == 'quick' else LAT_TS):
+            for pat in TSG_PATTERNS:
+                for ci in TSG_CONDS:
+                    yield dict(kind='spanc', g=g, ts=ts, gas=pat, cond=ci, tsg=[e if t else None for t in ts])
 
 
 def _spanc_T(case):
@@ -1176,6 +1568,8 @@ def _spanc_sig(case, api=None, units=None, history=None):
              cond=_cond_kind(SPAN_CONDS[case['cond']]))
     if case.get('names'):
         s['names'] = case['names']
+    if case.get('tsg'):
+        s['ts'] = 'free energy'
     if api:
         s['api'] = api
         s['units'] = units or 'none'
@@ -1243,6 +1637,10 @@ def _run_spanc(case, ctx):
         ctx.tag('spanc:extrema-move-with-conditions')
     ctx.tag('spanc:cond-' + _cond_kind(cond).replace(' ', '-'))
     ctx.tag('spanc:mid-gas' if mid else 'spanc:end-gas')
+    if case.get('tsg'):
+        flat = [(s_, s_ is st[1]) for st in steps for s_ in st if s_ is not None]
+        if min(range(len(E)), key=lambda i_: E[i_]) in [i_ for i_, (_, is_ts) in enumerate(flat) if is_ts]:
+            ctx.tag('spanc:ts-is-the-lowest-state')
     ctx.tag('spanc:int-T' if isinstance(T, int) else 'spanc:float-T')
     if any(isinstance(v, int) for v in [cond.get('P')] + [d.get('P') for d in cond.values() if isinstance(d, dict)]):
         ctx.tag('spanc:int-P')
@@ -1340,12 +1738,135 @@ def _run_spanc(case, ctx):
     ctx.true(kept, kw == snap, sig, case, repr(kw), repr(snap))
 
 
+# =================================================================== energy spans the caller keeps (fourth round)
+# One sequence A (gas A adsorbs first, B leaves last) and a second sequence B' with the same species NAMES but the
+# mirrored profile, in one process: spans through all three routes under alternating units and conditions, every value
+# kept and looked at again at the end; A's span asked again after B' was evaluated.
+SPANK_CONDS = [2, 5, 4]
+SPANK_KEPT = 'an energy span handed out by an earlier call is still the span of its own call after later calls'
+
+
+def _spank_cases(tier):
+    lat = LAT if tier == 'thorough' else LAT3
+    for k in (1, 2):
+        for g in itertools.product(lat, repeat=k + 1):
+            for ts in _ts_codes(k):
+                for e in ((None, -1.5) if any(ts) else (None,)):
+                    case = dict(kind='spank', g=list(g), ts=list(ts), gas='A|B', cond=2)
+                    if e is not None:
+                        case['tsg'] = [e if t else None for t in ts]
+                    yield case
+
+
+def _spank_build(case, mirror):
+    from pmutt.statmech import StatMech, ConstantMode
+    from pmutt.reaction import Reaction
+    c2 = dict(case)
+    if mirror:
+        c2['g'] = [-v + 0.25 for v in case['g']][::-1]
+        c2['ts'] = list(case['ts'])[::-1]
+        if case.get('tsg'):
+            c2['tsg'] = list(case['tsg'])[::-1]
+    steps = _spanc_steps(c2)
+    gases = {'A': _gas('A'), 'B': _gas('B')}
+    surf, rxns = {}, []
+
+    def species(state):
+        name, e, gl = state
+        if name not in surf:
+            surf[name] = StatMech(name=name, trans_model=ConstantMode(G=e))
+        return [surf[name]] + [gases[n_] for n_, _ in gl], [1] + [nu for _, nu in gl]
+
+    for r, t, p_ in steps:
+        rs, rst = species(r)
+        ps, pst = species(p_)
+        tsp, tst = species(t) if t else (None, None)
+        rxns.append(Reaction(reactants=rs, reactants_stoich=rst, products=ps, products_stoich=pst,
+                             transition_state=tsp, transition_state_stoich=tst))
+    path = []
+    for st in steps:
+        for s_ in st:
+            if s_ is None:
+                continue
+            node = frozenset([(s_[0], 1)] + [(n_, nu) for n_, nu in s_[2]])
+            if not path or path[-1] != node:
+                path.append(node)
+
+    def state_str(s_):
+        return '+'.join([s_[0]] + [('%s' % n_ if nu == 1 else '%r%s' % (nu, n_)) for n_, nu in s_[2]])
+
+    return steps, rxns, path, state_str(steps[0][0]), state_str(steps[-1][2])
+
+
+def _run_spank(case, ctx):
+    from pmutt import constants as c
+    from pmutt.reaction import Reactions
+    from pmutt.reaction.network import Network
+    T = _spanc_T(case)
+    built = [_spank_build(case, False), _spank_build(case, True)]
+    seqs = [Reactions(reactions=list(b[1])) for b in built]
+    nets = [Network(reactions=list(b[1])) for b in built]
+    ctx.trans(2 * len(case['ts']))
+    clause = 'energy span = highest - lowest state G (+ overall reaction G when the highest precedes the lowest)'
+    kept = []
+
+    def call(who, api, units, ci):
+        steps, _, path, src, tgt = built[who]
+        cond = SPAN_CONDS[ci]
+        kw = dict(T=T)
+        kw.update({k_: (dict(v) if isinstance(v, dict) else v) for k_, v in cond.items()})
+        if api == 'Reactions':
+            obs = seqs[who].get_E_span(units=units, **kw)
+        elif api == 'Network':
+            obs = nets[who].get_E_span(path=list(path), units=units, **kw)
+        else:
+            obs = nets[who].get_min_E_span(source=src, target=tgt, units=units, **kw)
+        ctx.trace()
+        ctx.evals()
+        states = [s_ for st in steps for s_ in st if s_ is not None]
+        E = [_state_G(s_, T, cond) for s_ in states]
+        cands, _, _ = _span_candidates(E)
+        f = (c.R('%s/K' % units) / c.R('eV/K')) if units else 1.0 / (c.R('eV/K') * float(T))
+        cs = [v * f for v in cands]
+        try:
+            exp = min(cs, key=lambda v: abs(v - float(obs)))
+        except (TypeError, ValueError):
+            exp = cs[0]
+        scale = (max(abs(v) for v in E) + 1.0) * f
+        sig = dict(part='e-span', family='kept results', api=api, units=units or 'none', cond=_cond_kind(cond),
+                   sequence='second (mirrored profile, same names)' if who else 'first')
+        if case.get('tsg'):
+            sig['ts'] = 'free energy'
+        ctx.close(clause, obs, exp, sig, case, rtol=1e-9, scale=scale)
+        kept.append((obs, exp, scale, sig))
+
+    a, b_, c_ = SPANK_CONDS
+    call(0, 'Reactions', 'eV', a)
+    call(0, 'Reactions', 'kJ/mol', b_)
+    call(0, 'Network', 'eV', b_)
+    call(0, 'Network', None, a)
+    call(0, 'Network.min', 'eV', c_)
+    call(1, 'Reactions', 'eV', a)               # a second sequence / network with the same species names
+    call(1, 'Network', 'eV', a)
+    call(1, 'Network.min', 'eV', a)
+    call(0, 'Reactions', 'eV', a)               # the first objects again
+    call(0, 'Network', 'eV', b_)
+    call(0, 'Network.min', 'eV', c_)
+    ctx.tag('spank:two-sequences-same-names')
+    for obs, exp, scale, sig in kept:
+        ctx.close(SPANK_KEPT, obs, exp, dict(sig, history='looked at again after all later calls'), case, rtol=1e-9,
+                  scale=scale)
+
+
 # =================================================================== runner interface
 def shards(tier):
     out = [dict(kind='pd1', part=i, nparts=N_PD_SHARDS) for i in range(N_PD_SHARDS)]
     out += [dict(kind='pd2', part=i, nparts=N_PD_SHARDS) for i in range(N_PD_SHARDS)]
     out += [dict(kind='span', part=i, nparts=N_SPAN_SHARDS) for i in range(N_SPAN_SHARDS)]
     out += [dict(kind='spanc', part=i, nparts=N_SPANC_SHARDS) for i in range(N_SPANC_SHARDS)]
+    # fourth round: grid points next to a phase boundary, kept results, free transition-state energies
+    for kind, k in (('pdx', N_PDX_SHARDS), ('keep', N_KEEP_SHARDS), ('spant', N_SPANT_SHARDS), ('spank', 1)):
+        out += [dict(kind=kind, part=i, nparts=k) for i in range(k)]
     return out
 
 
@@ -1358,20 +1879,37 @@ def check_case(case, ctx):
         _run_span(case, ctx)
     elif case['kind'] == 'spanc':
         _run_spanc(case, ctx)
+    elif case['kind'] == 'pdx':
+        _run_pdx(case, ctx)
+    elif case['kind'] == 'keep':
+        _run_keep(case, ctx)
+    elif case['kind'] == 'spank':
+        _run_spank(case, ctx)
     else:
         raise ValueError(case['kind'])
 
 
 def run_shard(shard, ctx):
     kind = shard['kind']
-    gen = {'pd1': _pd1_cases, 'pd2': _pd2_cases, 'span': _span_cases, 'spanc': _spanc_cases}[kind](ctx.tier)
-    fn = {'pd1': _run_pd1, 'pd2': _run_pd2, 'span': _run_span, 'spanc': _run_spanc}[kind]
+    gen = {'pd1': _pd1_cases, 'pd2': _pd2_cases, 'span': _span_cases, 'spanc': _spanc_cases, 'pdx': _pdx_cases,
+           'keep': _keep_cases, 'spant': _spant_cases, 'spank': _spank_cases}[kind](ctx.tier)
+    fn = {'pd1': _run_pd1, 'pd2': _run_pd2, 'span': _run_span, 'spanc': _run_spanc, 'pdx': _run_pdx,
+          'keep': _run_keep, 'spant': _run_span, 'spank': _run_spank}[kind]
     for i, case in enumerate(gen):
         if i % shard['nparts'] != shard['part']:
             continue
-        if kind == 'span':
+        if kind in ('pdx', 'keep', 'spank'):
+            sig = (_pdx_sig(case) if kind == 'pdx' else _keep_sig(case) if kind == 'keep' else
+                   dict(part='e-span', family='kept results'))
+            key = tuple(sorted((k, str(v)) for k, v in case.items()))
+            ctx.state(key)
+            if kind != 'pdx':
+                ctx.nontrivial(key)         # (pdx: the decided near-degenerate columns are counted by the case)
+        elif kind in ('span', 'spant'):
             sig = _span_sig(case)
             key = ('span', tuple(case['g']), tuple(case['ts']), case['spect'], case.get('chain', True))
+            if case.get('tsg'):
+                key += (tuple(case['tsg']),)
             ctx.state(key)
             if sig['branch'] != 'after' or any(case['ts']):
                 ctx.nontrivial(key)
@@ -1379,6 +1917,8 @@ def run_shard(shard, ctx):
             sig = _spanc_sig(case)
             key = ('spanc', tuple(case['g']), tuple(case['ts']), case['gas'], case['cond'], case.get('Ti'),
                    bool(case.get('edit')), case.get('names'))
+            if case.get('tsg'):
+                key += (tuple(case['tsg']),)
             ctx.state(key)
             if case['cond'] not in (0, 1):
                 ctx.nontrivial(key)
@@ -1407,7 +1947,13 @@ LEVEL_TEXT = ('Exhaustive product enumeration on the real PhaseDiagram, Reaction
               'a prefix / suffix of one another in every per-species scan variable (O2, H2O and the product-side H2) and '
               'fixed condition, 1-D and 2-D; energy-span states holding two pressure-dependent species in either order '
               '(co-adsorbed, co-desorbed, spectator gas in every state) with conditions of its own for the first, the '
-              'second, both, and for the pressure-independent surface species; get_min_E_span as a third route.')
+              'second, both, and for the pressure-independent surface species; get_min_E_span as a third route. '
+              'Fourth round: for every pair of reactions and scan variable the crossing of the two normalised lines is '
+              'located and scanned at relative distances 1e-3 to 1e-9 on both sides, in both index orders and inside the '
+              'full list, 1-D and 2-D, with ties accepted only between equal tabulated values; tables, stable phases and '
+              'energy spans kept by the caller across later calls (other units, conditions, dimension, a second diagram '
+              '/ sequence) still equal the oracle of their own call and share no memory; transition states with energies '
+              'anywhere on the lattice (below both end states and the lowest state of the sequence, between, level, above).')
 LEVEL_NOTE = ('Species from a fixed table whose lines cross along each scan; rotations/offsets of the reaction list by '
               'one deviation in the quick tier, full in the thorough tier; 5-8 step profiles only in the thorough tier '
               '(two deviations from two base profiles). Ties accept any tied answer.')
